@@ -85,7 +85,7 @@ CLAIMS = {
   technique="static analysis: origin tracking (P-ORG) + writer/reader layout extraction on go/ssa",
   ref="DESIGN.md §4 C19"),
  "C20": dict(
-  text="Static, exhaustive evaluation of every generated table literal (P-LIT) against the coherence conditions the lookups rely on (sortedness/disjointness for bisection, family disjointness, pre-filter = union, compose/decompose inverse, mirroring involution, language table order/canonical form/identifier correspondence) plus an SSA-derived bit-effect check of di.Direction setters/getters. Decides internal coherence for all code points; does not decide agreement with the UCD.",
+  text="Static, exhaustive evaluation of every generated table literal (P-LIT) against the coherence conditions the lookups rely on (sortedness/disjointness for bisection, family disjointness, pre-filter = union, compose/decompose inverse, mirroring involution, language table order/canonical form/identifier correspondence) plus an SSA-derived bit-effect check of di.Direction setters/getters, R-TABONLY (table-driven lookups return only table values), R-BISECT (bisected tables are sorted by the searched key) and R-LANGID (NewLangID is exact-first, so unique tags imply that every identifier round-trips). Decides internal coherence for all code points; does not decide agreement with the UCD.",
   note="trusts unicode.Is, sort.Search and the short bisection loops; tables are evaluated from syntax with go/types constants, nothing is executed",
   technique="static analysis: constant evaluation of table literals (AST + go/types) and SSA bit-effect analysis",
   ref="DESIGN.md §4 C20"),
